@@ -189,6 +189,17 @@ theorem exactly_once_overall {H : Text → String} {dir : List MFile} (hnd : (di
   subst this
   exact hst.zero_eq
 
+/-- **executed_count_bound**: after the final clean run the number of statements really executed is the
+number of statements of the directory plus at most one per failed revision write — whatever the earlier
+attempts and their fault schedules were. -/
+theorem executed_count_bound {H : Text → String} {dir : List MFile} (hnd : (dir.map (·.version)).Nodup)
+    {w : World} (hr : Reachable H dir w) :
+    (flat dir).length ≤ (attempt H dir w []).1.journal.length ∧
+    (attempt H dir w []).1.journal.length ≤ (flat dir).length + (attempt H dir w []).1.wfails := by
+  obtain ⟨_, k, hst, hk, _⟩ := clean_run_completes hnd hr
+  have := stutter_length hst
+  omega
+
 /-! ### non-vacuity (tests by evaluation) -/
 
 def toyH : Text → String := fun t => String.ofList t
